@@ -134,3 +134,16 @@ func init() {
 		Runs: []Run{{Pkg: hp + "c06", Variant: "real"}, {Pkg: hp + "c06", Variant: "scaled16", Optional: true}},
 	}
 }
+
+func init() {
+	specs["C08"] = &Spec{
+		Title: "Armor decodes what it encodes and accepts only canonical armor",
+		Level: "exploration",
+		LevelText: "Encoding: every data length 0..200/400 under every write schedule of the family (no Write at all, nil Writes, every 1- and 2-cut segmentation up to length 100/160, block sizes around the 48-byte line) must produce exactly the canonical armor of the reference encoder and round-trip. Decoding: every text of <= 4/5 lines over a 34-kind line alphabet (BEGIN/END variants, full, short, padded, non-canonical, empty, whitespace, over-long, CR-containing lines, PEM headers, garbage) x LF/CRLF x final newline, outer-whitespace variants around the 1024-byte limits, and every one-byte edit of valid armor, read whole and byte-wise, judged two-sidedly against an independent strict recogniser.",
+		LevelNote: "the whitespace limits (about 1 KiB before BEGIN, less than 1 KiB after END) are taken from the implementation's documented behaviour; trusts refage.Armor/Dearmor (validated on the CCTV armor_* vectors in C05)",
+		Technique: "bounded-exhaustive enumeration of operation sequences (writes) and of inputs (line structures, byte edits) on the implementation, differential against an independent reference",
+		Rule: "encode side: enumerate (data length, write schedule); oracle = byte equality with reference armor + round trip. decode side: enumerate texts; oracle = accepted => normalise(text) == Armor(data) and reference accepts; rejected => *armor.Error, reference rejects, released bytes are a prefix. distinct_nontrivial counts distinct data lengths (encode) and distinct accepted or edited texts (decode).",
+		Assumptions: commonAssume,
+		Runs: []Run{{Pkg: hp + "c08", Variant: "real"}},
+	}
+}
